@@ -549,3 +549,115 @@ Theorem C01_histm_example_spec :
 Proof. exact exm_spec_restrict. Qed.
 Print Assumptions C01_histm_example_spec.
 
+
+(** ** TDD (package TDDx): canonicity for three-valued decision diagrams on every snapshot accepted by
+    [td_ok_b] (= TdOK: the C03 invariant for ternary nodes + exactly the terminals False / Unknown / True),
+    in terms of functions of three-valued assignments of the VARIABLES ([tfun_of], DD/ApplyTddTop.v) and of
+    the finite value table [td_vtable] (DD/TddAudit.v) the driver compares; and after ANY history of the TDD
+    manager state machine Mgr/TddHist.v (constants, variables, not, the 8 connectives, ite, cofactors,
+    clone / drop, gc, add_vars; any edge order, any lossy cache). *)
+From Coq Require Import List NArith PArith Bool Arith FMapPositive.
+From OxiVerif Require Import DD.Table DD.TableExtra DD.TableProofs DD.Build DD.Apply DD.ApplyProofs DD.ConfigApply
+  DD.Tdd DD.ApplyTdd DD.ApplyTddBase DD.ApplyTddProofs DD.ApplyTddTop DD.TddAudit DD.TddAuditProofs
+  Mgr.History Mgr.TddHist Mgr.TddHistProofs Mgr.TddHistSim Mgr.TddHistExamples.
+Import ListNotations.
+
+(* two references are equal IFF they denote the same three-valued function of the variables *)
+Theorem C01_tdd_canon_tfun : forall s r1 r2, TdOK s -> ref_ok s r1 -> ref_ok s r2 ->
+  (r1 = r2 <-> forall av : nat -> tri, tfun_of s r1 av = tfun_of s r2 av).
+Proof. exact td_canon_tfun. Qed.
+Print Assumptions C01_tdd_canon_tfun.
+
+(* ... IFF their value tables over the 3^n assignments of the n variables are equal (the comparison the
+   driver performs decides equality of the functions) *)
+Theorem C01_tdd_canon_vtable : forall s r1 r2, TdOK s -> ref_ok s r1 -> ref_ok s r2 ->
+  (r1 = r2 <-> td_vtable s r1 = td_vtable s r2).
+Proof. exact td_vtable_canon. Qed.
+Print Assumptions C01_tdd_canon_vtable.
+
+(* handles: == (same edge) iff same value table / same function *)
+Theorem C01_tdd_canon_handles : forall s, TdOK s ->
+  forall h1 h2, In h1 (s_handles s) -> In h2 (s_handles s) ->
+  (snd h1 = snd h2 <-> td_vtable s (eref (snd h1)) = td_vtable s (eref (snd h2))).
+Proof. exact td_canon_handles. Qed.
+Print Assumptions C01_tdd_canon_handles.
+
+Theorem C01_tdd_canon_handles_tfun : forall s, TdOK s ->
+  forall h1 h2, In h1 (s_handles s) -> In h2 (s_handles s) ->
+  (snd h1 = snd h2 <-> forall av : nat -> tri, tfun_of s (eref (snd h1)) av = tfun_of s (eref (snd h2)) av).
+Proof. exact td_canon_handles_tfun. Qed.
+Print Assumptions C01_tdd_canon_handles_tfun.
+
+(* the table: 3^n entries, none undefined, entry i = the value under the assignment whose value at variable v
+   is digit v of i in base 3 (0 true, 1 unknown, 2 false); [td_value] is the function [tfun_of] *)
+Theorem C01_tdd_vtable_shape : forall s r, TdOK s -> ref_ok s r ->
+  length (td_vtable s r) = 3 ^ nlevels s /\ ~ In None (td_vtable s r) /\
+  (forall av, td_value s r av = Some (tfun_of s r av)) /\
+  forall i, i < 3 ^ nlevels s ->
+    exists a, nth_error (td_vtable s r) i = Some (td_value s r a) /\
+              forall v, a v = if Nat.ltb v (nlevels s) then tri_of_digit ((i / 3 ^ v) mod 3) else TT.
+Proof. exact td_vtable_shape. Qed.
+Print Assumptions C01_tdd_vtable_shape.
+
+(* after ANY history from a fresh manager: two slots hold the same edge IFF same function / same table *)
+Theorem C01_tdd_hist_canonical :
+  forall (gt : ref -> ref -> bool) (C : Type) (cget : C -> N -> list ref -> option ref)
+         (cadd : C -> N -> list ref -> ref -> C) (cempty : C),
+  lossy cget cadd -> (forall k a, cget cempty k a = None) ->
+  forall n st, treach gt C cget cadd cempty n st ->
+  forall x y ex ey, hget (s_handles (t_s C st)) x = Some ex -> hget (s_handles (t_s C st)) y = Some ey ->
+  (ex = ey <-> forall av : nat -> tri, tfun_of (t_s C st) (eref ex) av = tfun_of (t_s C st) (eref ey) av).
+Proof. exact thist_canonical. Qed.
+Print Assumptions C01_tdd_hist_canonical.
+
+Theorem C01_tdd_hist_canonical_vtable :
+  forall (gt : ref -> ref -> bool) (C : Type) (cget : C -> N -> list ref -> option ref)
+         (cadd : C -> N -> list ref -> ref -> C) (cempty : C),
+  lossy cget cadd -> (forall k a, cget cempty k a = None) ->
+  forall n st, treach gt C cget cadd cempty n st ->
+  forall x y ex ey, hget (s_handles (t_s C st)) x = Some ex -> hget (s_handles (t_s C st)) y = Some ey ->
+  (ex = ey <-> td_vtable (t_s C st) (eref ex) = td_vtable (t_s C st) (eref ey)).
+Proof. exact thist_canonical_vtable. Qed.
+Print Assumptions C01_tdd_hist_canonical_vtable.
+
+(* the same for every state satisfying the invariant *)
+Theorem C01_tdd_hist_inv_canonical :
+  forall (C : Type) (cget : C -> N -> list ref -> option ref) (st : tstate C), TInv C cget st ->
+  forall x y ex ey, hget (s_handles (t_s C st)) x = Some ex -> hget (s_handles (t_s C st)) y = Some ey ->
+  (ex = ey <-> forall av : nat -> tri, tfun_of (t_s C st) (eref ex) av = tfun_of (t_s C st) (eref ey) av).
+Proof. exact tinv_canonical. Qed.
+Print Assumptions C01_tdd_hist_inv_canonical.
+
+(* the result of a call is determined by its function: every slot holding that function holds that edge *)
+Theorem C01_tdd_hist_result_unique :
+  forall (gt : ref -> ref -> bool) (C : Type) (cget : C -> N -> list ref -> option ref)
+         (cadd : C -> N -> list ref -> ref -> C) (cempty : C),
+  lossy cget cadd -> (forall k a, cget cempty k a = None) ->
+  forall (st : tstate C) o st', TInv C cget st -> top_pre C st o ->
+  tstep gt C cget cadd cempty st o = Some st' ->
+  forall d y ed ey, hget (s_handles (t_s C st')) d = Some ed -> hget (s_handles (t_s C st')) y = Some ey ->
+  (forall av : nat -> tri, tfun_of (t_s C st') (eref ey) av = tfun_of (t_s C st') (eref ed) av) -> ey = ed.
+Proof. exact thist_result_unique. Qed.
+Print Assumptions C01_tdd_hist_result_unique.
+
+(* what every call stores: the connective's fixed table applied to the operands' FUNCTIONS at call time *)
+Theorem C01_tdd_hist_spec :
+  forall (gt : ref -> ref -> bool) (C : Type) (cget : C -> N -> list ref -> option ref)
+         (cadd : C -> N -> list ref -> ref -> C) (cempty : C),
+  lossy cget cadd -> (forall k a, cget cempty k a = None) ->
+  forall (st : tstate C) o, TInv C cget st -> top_pre C st o ->
+  exists st', tstep gt C cget cadd cempty st o = Some st' /\ TInv C cget st' /\
+              tframe C st o st' /\ tpost C st o st'.
+Proof. exact tstep_ok. Qed.
+Print Assumptions C01_tdd_hist_spec.
+
+(* non-vacuity: a hand-written snapshot with two different functions; a 17-call history with every
+   constructor: a clone and a second derivation (nand / not and) hold the same edge, different functions
+   different edges *)
+Theorem C01_tdd_example :
+  (td_ok_b ex_t3 = true /\ td_vtable ex_t3 (RN 2) <> td_vtable ex_t3 (RN 1)) /\
+  hget (s_handles (t_s _ ex_stA)) 8 = hget (s_handles (t_s _ ex_stA)) 6 /\
+  hget (s_handles (t_s _ ex_stA)) 7 = hget (s_handles (t_s _ ex_stA)) 6 /\
+  hget (s_handles (t_s _ ex_stA)) 13 <> hget (s_handles (t_s _ ex_stA)) 14.
+Proof. exact ex_c01. Qed.
+Print Assumptions C01_tdd_example.
